@@ -23,7 +23,7 @@ import re
 from .. import core, par
 
 MANIFEST = dict(
-    text="Proof: Lean theorems assign_functional / groups_listed / group_list_sound / defined_flow_uuid / explicit_wins (every site, every position) / conflict_rejected / conflict_sound / trigger_check_exact / trigger_unknown_flow_rejected_partial / validate_idem over a hand model of UUIDDict and RapidProContainer.update_global_uuids, for all occurrence lists, all starting dictionaries and any number of repeated validations (unbounded); tied to the code by a differential run over containers built through content-index sheets, from_dict and direct API calls (names shared across flows/campaigns/triggers, explicit uuids on random subsets of occurrences in random order, 1-3 renders) and by T1 call sequences regenerated from the source. The property's own statement is evaluated on every real render() output.",
+    text="Proof: Lean theorems assign_functional / groups_listed / group_list_sound / defined_flow_uuid / explicit_wins (every site, every position) / conflict_rejected / conflict_sound / trigger_check_exact / trigger_unknown_flow_rejected_partial / validate_idem / container_validate_idem over a hand model of UUIDDict and RapidProContainer.update_global_uuids, for all occurrence lists, all starting dictionaries and any number of repeated validations (unbounded); tied to the code by a differential run over containers built through content-index sheets, from_dict and direct API calls (names shared across flows/campaigns/triggers, explicit uuids on random subsets of occurrences in random order, 1-3 renders) and by T1 call sequences regenerated from the source. The property's own statement is evaluated on every real render() output.",
     ref="§5 C06",
     note="Trusts: Lean kernel (axioms audited each run), the differential harness (spec → model request translation, output scanner) and Driver JSON codec, Python dict insertion order, uuid4 freshness (checked, not proved). `trigger for a flow that does not exist` is proved for the reading the code implements (flow name not mentioned anywhere) — the full reading is false on the unchanged tree (known finding F-C06-b, negative witness in Lean); obj_id inside inserted blocks is lost (F-C06-a).",
     technique="Lean 4 proof (induction over the occurrence list, dictionary invariants) + randomized model/code correspondence at render() output",
@@ -1044,7 +1044,8 @@ def run(ck: core.Check):
     ck.partial_gap = [
         "trigger_unknown_flow_rejected is proved for the reading the code implements (flow name not in flow_dict = neither defined nor mentioned by any action/campaign/obj_id); the full reading (not DEFINED) is false on the unchanged tree: Lean negative witness trigger_unknown_flow_rejected_full_false, known finding F-C06-b",
         "rows of inserted blocks record their obj_id in a throw-away container (modelled as coded; known finding F-C06-a)",
-        "validate_idem is stated on occurrence lists (reOccs); that the nested container re-flattens to reOccs is checked by the tie (renders 2-3), not proved",
+        "nested insert_as_block (a block inserting a block) is neither generated nor modelled (each level gets its own throw-away container in the code)",
+        "modifications of the container between two renders (adding flows/triggers after a render) are outside the statement and not explored",
     ]
     if not core.DRIVER_BIN.exists():
         raise core.Infra("driver not built:\n" + ck.lean.log[-2000:])
